@@ -4,6 +4,12 @@ open ZI.World ZI.Classes ZI.Registry ZI.Graph
 def nums (s : String) : List Nat := (s.splitOn " ").filterMap String.toNat?
 def val (s : String) : Option Val := match nums s with | [i, e] => some ⟨i, e⟩ | _ => none
 def shwV (o : Option Val) : String := match o with | some v => toString v.ident | none => "N"
+def retNone (v : Val) : Bool := v.ident % 4 == 0
+def sortS (l : List String) : List String := (l.toArray.qsort (· < ·)).toList
+/-- the object a key token stands for (`o5` → 5, `s3.5` → 5) -/
+def objOf (t : String) : String :=
+  let n : String := (t.drop 1).toString
+  if t.startsWith "s" then (match n.splitOn "." with | [_, o] => o | _ => n) else n
 def F := 64
 /-- a required key: `i7` interface, `c3` class specification, `o5` providedBy(object), `s3.5` providedBy(super(C3, o5)) -/
 def key (u : U) (t : String) : U × Nat :=
@@ -33,6 +39,7 @@ partial def loop (h : IO.FS.Stream) (u : U) : IO Unit := do
   | ["isetbases", s, bs] => IO.println "ok"; loop h (declOp u fun w => { w with g := ZI.Graph.setBases w.g s.toNat! (if (nums bs).isEmpty then [0] else nums bs) })
   | ["class", c, bs] => IO.println "ok"; loop h { u with cw := u.cw.setCls c.toNat! { pyBases := if (nums bs).isEmpty then [0] else nums bs } }
   | ["inst", o, c] => IO.println "ok"; loop h { u with cw := u.cw.setInst o.toNat! { cls := c.toNat! } }
+  | ["first", c, xs] => IO.println "ok"; loop h (declOp u fun w => classImplementsFirst F w c.toNat! (nums xs).head!)
   | ["add", c, xs] => IO.println "ok"; loop h (declOp u fun w => classImplements F w c.toNat! (nums xs))
   | ["only", c, xs] => IO.println "ok"; loop h (declOp u fun w => classImplementsOnly F w c.toNat! (nums xs))
   | ["dp", o, xs] => IO.println "ok"; loop h (declOp u fun w => directlyProvides F w o.toNat! (nums xs))
@@ -48,9 +55,34 @@ partial def loop (h : IO.FS.Stream) (u : U) : IO Unit := do
   | ["unreg", r, req, p, name] =>
       let (u, ks) := keys u req
       IO.println "ok"; loop h (regOp u fun w => unregister 32 w r.toNat! (ks.map some) p.toNat! name none)
+  | ["unreg", r, req, p, name, v] =>
+      let (u, ks) := keys u req
+      IO.println "ok"; loop h (regOp u fun w => unregister 32 w r.toNat! (ks.map some) p.toNat! name (val v))
+  | ["unsub", r, req, p, v] =>
+      let (u, ks) := keys u req
+      IO.println "ok"; loop h (regOp u fun w => unsubscribe 32 w r.toNat! (ks.map some) (if p == "N" then none else some p.toNat!) (val v))
+  | ["rbases", r, bs] => IO.println "ok"; loop h (regOp u fun w => ZI.Registry.setBases 32 w r.toNat! (nums bs))
+  | ["rebuild", r] => IO.println "ok"; loop h (regOp u fun w => ZI.Registry.rebuild 32 w r.toNat!)
+  | ["lookup1", r, req, p, name] =>
+      let (u, ks) := keys u req
+      let (u, a) := uLookup u r.toNat! ks p.toNat! name
+      IO.println (shwV a); loop h u
+  | ["names", r, req, p] =>
+      let (u, ks) := keys u req
+      let (u, a) := uLookupAll u r.toNat! ks p.toNat!
+      IO.println (" ".intercalate (sortS (a.map fun p => p.1))); loop h u
+  | ["qadapter", r, req, p, name, _] =>       -- queryAdapter / adapter_hook / queryMultiAdapter on objects (incl. super proxies)
+      let (u, ks) := keys u req
+      let (u, a) := uLookup u r.toNat! ks p.toNat! name
+      let os := " ".intercalate (((req.splitOn " ").filter (· != "")).map objOf)
+      IO.println (match a with | some v => if retNone v then "default" else s!"res {v.ident} {os}" | none => "default"); loop h u
+  | ["subscribers", r, req, p] =>
+      let (u, ks) := keys u req
+      let (u, a) := uSubscriptions u r.toNat! ks (some p.toNat!)
+      IO.println (" ".intercalate ((a.filter fun v => !retNone v).map fun v => toString v.ident)); loop h u
   | ["sub", r, req, p, v] =>
       let (u, ks) := keys u req
-      IO.println "ok"; loop h (regOp u fun w => subscribe 32 w r.toNat! (ks.map some) (some p.toNat!) (val v).get!)
+      IO.println "ok"; loop h (regOp u fun w => subscribe 32 w r.toNat! (ks.map some) (if p == "N" then none else some p.toNat!) (val v).get!)
   | ["lookup", r, req, p, name] =>
       let (u, ks) := keys u req
       let (u, a) := uLookup u r.toNat! ks p.toNat! name
@@ -62,7 +94,7 @@ partial def loop (h : IO.FS.Stream) (u : U) : IO Unit := do
       IO.println (" ".intercalate (srt.map fun p => s!"{p.1}={p.2.ident}")); loop h u
   | ["subs", r, req, p] =>
       let (u, ks) := keys u req
-      let (u, a) := uSubscriptions u r.toNat! ks (some p.toNat!)
+      let (u, a) := uSubscriptions u r.toNat! ks (if p == "N" then none else some p.toNat!)
       IO.println (" ".intercalate (a.map fun v => toString v.ident)); loop h u
   | ["prov", t] =>
       let (u, s) := key u t
